@@ -48,7 +48,8 @@ Definition errk_eqb (a b : errk) : bool :=
 Definition dv_eqb (a b : option dv) : bool := option_eqb (pair_eqb str_eqb str_eqb) a b.
 Definition out_eqb (a b : out) : bool :=
   match a, b with
-  | OOk x d, OOk y d' => Bool.eqb x y && dv_eqb d d' 
+  | OOk x d kw, OOk y d' kw' =>
+      Bool.eqb x y && dv_eqb d d' && option_eqb (pair_eqb (option_eqb Bool.eqb) Bool.eqb) kw kw'
   | OErr x, OErr y => errk_eqb x y
   | OExc, OExc => true
   | OExit2, OExit2 => true
@@ -60,7 +61,7 @@ Definition out_eqb (a b : out) : bool :=
   end.
 Definition kind_of (o : out) : N :=
   match o with
-  | OOk _ _ => 0 | OErr _ => 1 | OExc => 2 | OExit2 => 4 | OHelp _ | OHelpCls _ | OPrint _ _ _ _ => 3
+  | OOk _ _ _ => 0 | OErr _ => 1 | OExc => 2 | OExit2 => 4 | OHelp _ | OHelpCls _ | OPrint _ _ _ _ => 3
   end%N.
 
 Definition args_agree (keys : list str) (m o : list (str * list tok)) : bool :=
